@@ -341,6 +341,24 @@ impl<H: Hal, T: Transport, const RX_BUFFER_SIZE: usize>
 /// its index.
 ///
 /// Returns `Err(SocketError::NotConnected)` if there is no matching connection in the list.
+#[cfg(virtio_drivers_verif)]
+impl<H: Hal, T: Transport, const RX_BUFFER_SIZE: usize>
+    VsockConnectionManager<H, T, RX_BUFFER_SIZE>
+{
+    /// Presets the free-running byte counters of a connection. Verification only.
+    pub fn verif_set_counters(
+        &mut self,
+        peer: VsockAddr,
+        src_port: u32,
+        tx_cnt: u32,
+        fwd_cnt: u32,
+    ) -> Result {
+        let (_, connection) = get_connection(&mut self.connections, peer, src_port)?;
+        connection.info.verif_set_counters(tx_cnt, fwd_cnt);
+        Ok(())
+    }
+}
+
 fn get_connection(
     connections: &mut [Connection],
     peer: VsockAddr,
